@@ -22,7 +22,7 @@ from gen import constraints
 
 ID = "C10"
 GENERATORS = [constraints.generate]
-LEAN_MODULES = ["FimVerif.Proofs.C10", "FimVerif.Proofs.Lemmas.C10Dec"]
+LEAN_MODULES = ["FimVerif.Proofs.C10", "FimVerif.Proofs.Lemmas.C10Dec", "FimVerif.Proofs.Lemmas.C10Perm", "FimVerif.Proofs.Lemmas.C10Hist"]
 P = "FimVerif.C10."
 THEOREMS = [P + t for t in (
     "validate_iff_spec", "site_recorded", "validate_touches_only_sites", "recordedSite_declared", "recordedSite_unlimited",
@@ -35,7 +35,9 @@ THEOREMS = [P + t for t in (
     "svc_table_pinned", "node_table_pinned", "link_table_pinned", "guard_table_pinned", "no_limit_pinned", "tables_complete",
     "gen_service_properties_readable", "gen_node_required_readable", "gen_names_are_members", "gen_no_instance_limit",
     "gen_instances_void", "validate_rejects_with_topology_of", "validate_rejects_with_topology", "validate_iff_spec_gen", "validate_counts_by_identity",
-    "gen_no_falsy_values", "gen_hollow_harmless", "services_full_of_valid", "falsy_value_counterexample")]
+    "gen_no_falsy_values", "gen_hollow_harmless", "services_full_of_valid", "falsy_value_counterexample",
+    "interface_order_irrelevant", "interface_order_irrelevant_gen", "verdict_of_eraseNames", "history_connect_disconnect",
+    "history_connect_order", "history_rename", "validate_pins_multisite_counterexample", "failed_validate_leaves_site_counterexample")]
 EXHAUSTIVE = True
 TRUSTED_BASE = [
     "gen/constraints.py: dump of the three constraint tables, getter/shallow-sliver property lists, guardrail idiom, _list_nodes filter",
@@ -502,6 +504,7 @@ def build(case, F):
     t = ft.ExperimentTopology() if exp else ft.SubstrateTopology()
     b = Built()
     b.topo, b.iface, b.abstract, b.nodes_abs = t, {}, {}, []
+    b.node, b.comp_name, b.owned_name, b.parent_iface = {}, {}, {}, {}      # handles and names, for the history cases
     ids = itertools.count()
     nid = lambda: None if exp else "id%d" % next(ids)
     for ni, n in enumerate(case["nodes"]):
@@ -518,6 +521,7 @@ def build(case, F):
             node = t.add_node(name=name, site=n["site"], ntype=NT[n["ty"]], node_id=nid())
             if n["ty"] == "Facility":
                 node = t.facilities[name]
+        b.node[ni] = node
         has_comp = False
         for gi, g in enumerate(groups):
             via = g["via"]
@@ -533,6 +537,7 @@ def build(case, F):
                 cname = g.get("cname") or (pre + "nic%d" % gi)
                 model = F["ComponentModelType"].SharedNIC_ConnectX_6 if via == "nic_shared" else F["ComponentModelType"].SmartNIC_ConnectX_6
                 comp = node.add_component(name=cname, model_type=model)
+                b.comp_name[(ni, gi)] = cname
                 has_comp = True
                 ifs = list(comp.interface_list)
                 direct = [str(i.type) for i in ifs]
@@ -547,6 +552,7 @@ def build(case, F):
                     if kind == "SubInterface":
                         par = hs.add_interface(name=pre + "p%d" % ii, itype=IT.DedicatedPort, labels=F["Labels"](local_name="p%d" % ii), node_id=nid())
                         ifs.append(par.add_child_interface(name=pre + "p%d.1" % ii, labels=F["Labels"](vlan=str(100 + ii)), node_id=nid()))
+                        b.parent_iface[(ni, gi, ii)] = par
                         direct.append("DedicatedPort")
                         dnames.append(pre + "p%d" % ii)
                     else:
@@ -555,6 +561,7 @@ def build(case, F):
                         dnames.append(pre + "p%d" % ii)
             if via != "generic":
                 dnames = [x.name for x in ifs]
+            b.owned_name[(ni, gi)] = sname
             for ii, x in enumerate(ifs):
                 b.iface[(ni, gi, ii)] = x
             b.abstract[sname] = [g["sty"], None, [], n["site"], [["d", nm, k] for nm, k in zip(dnames, direct)]]
@@ -655,6 +662,8 @@ def run_case(case):
     F = _F
     if case.get("connect"):
         return run_connect(case, F)
+    if case.get("hist"):
+        return run_history(case, F)
     out = {}
     sink = io.StringIO()
     b = None
@@ -667,18 +676,19 @@ def run_case(case):
             except Exception as e:
                 return {"build_err": "%s: %s" % (type(e).__name__, str(e)[:200])}
             t = b.topo
-            order = list(t.network_services.keys())
+            listed = t.network_services        # one listing: every call builds a handle for every service
+            order = list(listed.keys())
             if sorted(order) != sorted(b.abstract):
                 return {"build_err": "service names differ: api %s harness %s" % (order, sorted(b.abstract))}
             # sanity of the builder itself: the kinds the API lists for each service are the ones described
             for name in order:
-                api = [str(i.type) for i in t.network_services[name].interface_list]
+                api = [str(i.type) for i in listed[name].interface_list]
                 mine = [x[2] if x[0] == "d" else "ServicePort" for x in b.abstract[name][4]]
                 if sorted(api) != sorted(mine):
                     return {"build_err": "interfaces of %s: api %s harness %s" % (name, api, mine)}
             if case.get("xcheck"):
                 mine = [b.abstract[n] for n in order]
-                api = extract(t, order, F)
+                api = extract(t, order, F, listed)
                 srt = lambda d: [x[:4] + [sorted(x[4], key=canon)] + [list(x[5]) if len(x) > 5 else []] + [list(x[6]) if len(x) > 6 else []] for x in d]   # the API lists interfaces in its own order
                 if canon(srt(api)) != canon(srt(mine)):
                     # the slice the API reports is not the slice the calls describe (e.g. a site recorded at connect time):
@@ -710,12 +720,12 @@ def run_case(case):
                 pass
 
 
-def extract(t, order, F):
+def extract(t, order, F, listed=None):
     """The request-line description of the services, read back through the public API only
     (used on a sample of the cases to check the harness's own abstraction)."""
     out = []
     for name in order:
-        s = t.network_services[name]
+        s = (listed or t.network_services)[name]
         owner = t.get_owner_node(s)
         ifs = []
         for si in s.interface_list:
@@ -804,13 +814,79 @@ def run_cases(cases, procs):
 # --------------------------------------------------------------------------
 # the oracle: is this slice valid according to the pinned table?
 
-def expected(case):
+def node_reasons(ty, has):
+    """why a node of this type with these properties set is invalid"""
+    out = []
+    row = PINNED_NODE[ty]
+    for p in row["required_properties"]:
+        if p not in has:
+            out.append(("node-required", "%s:%s" % (ty, p)))
+    for p in row["forbidden_properties"]:
+        if p in has:
+            out.append(("facility-node-forbidden" if ty == "Facility" else "node-forbidden:" + p, "%s:%s" % (ty, p)))
+    return out
+
+
+def svc_reasons(exp, name, ty, declared, props, ifs, port_errors=0):
+    """One service against its pinned row. ifs = [(kind, site of the owner node | None)] - the node-side interface each of its
+    interfaces stands for; port_errors = number of service ports without exactly one peer.
+    -> (reasons, the site inferred from the interfaces when none is declared and it is unambiguous)"""
+    reasons = [("service-port-peers", name)] * port_errors
+    row = PINNED_SVC[ty]
+    k = len(ifs)
+    if exp:
+        if row["min_interfaces"] != NL and k < row["min_interfaces"]:
+            reasons.append(("min-interfaces", name))
+        if row["num_interfaces"] != NL and k > row["num_interfaces"]:
+            reasons.append(("max-interfaces", name))
+    inferred = None
+    if row["num_sites"] != NL:
+        if any(site is None for _, site in ifs):
+            reasons.append(("interface-without-owner", name))
+        sites = {site for _, site in ifs if site is not None}
+        if len(sites) > row["num_sites"]:
+            reasons.append(("max-sites", name))
+        if declared and ifs and any(site != declared for _, site in ifs if site is not None):
+            reasons.append(("declared-site-mismatch" if len(sites) == 1 else "declared-site-multisite", name))
+        if not declared and len(sites) == 1 and not any(site is None for _, site in ifs):
+            inferred = next(iter(sites))
+    has = set(props)
+    if declared or inferred:
+        has.add("site")
+    for p in row["required_properties"]:
+        if p not in has:
+            reasons.append(("service-required:" + p, name))
+    for p in row["forbidden_properties"]:
+        if p in has:
+            reasons.append(("service-forbidden:" + p, name))
+    if row["required_interface_types"]:
+        if any(kind not in row["required_interface_types"] for kind, _ in ifs):
+            reasons.append(("interface-type", name))
+    return reasons, inferred
+
+
+def pinned_site(x, ty, reading):
+    """The site an earlier validation left on a service (description field "pinned" = {"site", "ok"}), under two readings:
+    'state' - it is part of the slice as it is, like a declared site; 'property' - only what the property says a validation
+    records counts: the site inferred by a *successful* validation of a *single-site* service type."""
+    pin = x.get("pinned")
+    if not pin:
+        return None
+    if reading == "state" or (pin["ok"] and PINNED_SVC[ty]["num_sites"] == 1):
+        return pin["site"]
+    return None
+
+
+def expected(case, reading="state", inferred_out=None):
     """-> (reasons, sites) : reasons = list of (class, detail) why the slice is invalid ([] = valid);
-    sites = {service name: site that must be recorded after a successful validation}"""
+    sites = {service name: site that must be recorded after a successful validation}.
+    inferred_out (a dict) receives, for every service, the site a validation infers (what the code writes down)."""
     reasons = []
     must_site = {}
     exp = case["exp"]
     for ni, n in enumerate(case["nodes"]):
+        if n.get("removed"):
+            continue
         has = set()
         if n["site"]:
             has.add("site")
@@ -818,77 +894,71 @@ def expected(case):
             has |= {"image_ref", "image_type"}
         if n["mgmt"]:
             has.add("management_ip")
-        if n["gpu"] or any(g["via"].startswith("nic") for g in n["groups"]):
+        if n["gpu"] or any(g["via"].startswith("nic") and not g.get("removed") for g in n["groups"]):
             has.add("attached_components_info")
-        row = PINNED_NODE[n["ty"]]
-        for p in row["required_properties"]:
-            if p not in has:
-                reasons.append(("node-required", "%s:%s" % (n["ty"], p)))
-        for p in row["forbidden_properties"]:
-            if p in has:
-                reasons.append(("facility-node-forbidden" if n["ty"] == "Facility" else "node-forbidden:" + p, "%s:%s" % (n["ty"], p)))
-    # every service: (name, type, declared, props, [(kind, site or None if owner-less)], free-standing?)
+        reasons += node_reasons(n["ty"], has)
+    # every service: (name, type, declared, props, [(kind, site or None if owner-less)], extra)
     services = []
     for ni, n in enumerate(case["nodes"]):
+        if n.get("removed"):
+            continue
         for gi, g in enumerate(n["groups"]):
+            if g.get("removed"):
+                continue
             kinds = ["DedicatedPort" if (k == "SubInterface" and g["via"] == "generic") else k for k in g["kinds"]]
-            services.append(("n%d.g%d" % (ni, gi), g["sty"], None, set(), [(k, n["site"]) for k in kinds], []))
+            services.append(("n%d.g%d" % (ni, gi), g["sty"], pinned_site(g, g["sty"], reading), set(), [(k, n["site"]) for k in kinds], []))
     for si, s in enumerate(case["svcs"]):
         ifs = []
         for x in s["ifs"]:
             n = case["nodes"][x[0]]
             ifs.append((n["groups"][x[1]]["kinds"][x[2]], n["site"]))
-        services.append(("svc%d" % si, s["ty"], s["site"], set(abs_props(s["props"])[0]), ifs, s["extra"]))
+        services.append(("svc%d" % si, s["ty"], s["site"] or pinned_site(s, s["ty"], reading), set(abs_props(s["props"])[0]), ifs, s["extra"]))
     peered = {}
     for si, s in enumerate(case["svcs"]):
         for x in s["extra"]:
             if x[0] == "peer":
                 peered.setdefault(x[1], []).append(si)
     for idx, (name, ty, declared, props, ifs, extra) in enumerate(services):
-        row = PINNED_SVC[ty]
         ifs = list(ifs)
         si = int(name[3:]) if name.startswith("svc") else None
+        port_errors = 0
         for x in list(extra) + [["peer", None]] * len(peered.get(si, [])):
             if x[0] == "direct":
                 ifs.append((x[1], None))           # an interface nobody owns
             elif x[0] == "peer":
                 ifs.append(("ServicePort", None))
-            elif x[0] == "dangling":
-                reasons.append(("service-port-peers", name))
-            elif x[0] == "two":
-                reasons.append(("service-port-peers", name))
-        k = len(ifs)
-        if exp:
-            if row["min_interfaces"] != NL and k < row["min_interfaces"]:
-                reasons.append(("min-interfaces", name))
-            if row["num_interfaces"] != NL and k > row["num_interfaces"]:
-                reasons.append(("max-interfaces", name))
-        inferred = None
-        if row["num_sites"] != NL:
-            if any(site is None for _, site in ifs):
-                reasons.append(("interface-without-owner", name))
-            sites = {site for _, site in ifs if site is not None}
-            if len(sites) > row["num_sites"]:
-                reasons.append(("max-sites", name))
-            if declared and ifs and any(site != declared for _, site in ifs if site is not None):
-                reasons.append(("declared-site-mismatch" if len(sites) == 1 else "declared-site-multisite", name))
-            if not declared and len(sites) == 1 and not any(site is None for _, site in ifs):
-                inferred = next(iter(sites))
-                if row["num_sites"] == 1 and name.startswith("svc"):
-                    must_site[name] = inferred
-        has = set(props)
-        if declared or inferred:
-            has.add("site")
-        for p in row["required_properties"]:
-            if p not in has:
-                reasons.append(("service-required:" + p, name))
-        for p in row["forbidden_properties"]:
-            if p in has:
-                reasons.append(("service-forbidden:" + p, name))
-        if row["required_interface_types"]:
-            if any(kind not in row["required_interface_types"] for kind, _ in ifs):
-                reasons.append(("interface-type", name))
+            elif x[0] in ("dangling", "two"):
+                port_errors += 1
+        r, inferred = svc_reasons(exp, name, ty, declared, props, ifs, port_errors)
+        reasons += r
+        if inferred is not None:
+            if PINNED_SVC[ty]["num_sites"] == 1 and name.startswith("svc"):
+                must_site[name] = inferred
+            if inferred_out is not None:
+                inferred_out[name] = inferred
     return reasons, must_site
+
+
+def expected_abstract(exp, nodes_abs, svcs_abs):
+    """The same decision on the slice *as it is*, read back through the API in the form of a validate request:
+    nodes [[type, [set properties], ..]], services [[type, site, [set properties], owner site, [interface..], ..]].
+    -> reasons"""
+    reasons = []
+    for n in nodes_abs:
+        reasons += node_reasons(n[0], set(n[1]))
+    for k, x in enumerate(svcs_abs):
+        ty, site, props, owner, aifs = x[0], x[1], x[2], x[3], x[4]
+        ifs, port_errors = [], 0
+        for i in aifs:
+            if i[0] == "d":
+                ifs.append((i[2], owner))
+            elif i[2] is None or len(i[2]) != 1:
+                port_errors += 1
+            else:
+                ifs.append((i[2][0][0], i[2][0][1]))
+        r, _ = svc_reasons(exp, "service%d" % k, ty, site, set(props), ifs, port_errors)
+        reasons += r
+    return reasons
 
 
 def judge(case, out, res):
@@ -943,6 +1013,435 @@ def judge_connect(case, out, res):
 
 
 # --------------------------------------------------------------------------
+# histories: the verdict must depend on the slice as it is, not on the calls that made it
+#
+# hist case = {"hist": True, "exp": True, "naming", "nodes": [node], "svcs": [{"ty","site","props"}], "ops": [op]}
+# op = ["connect", si, [n,g,i]] | ["disconnect", si, [n,g,i]] (the call is made on service si, whichever service the
+#      interface is connected to) | ["remove_node", ni] | ["remove_comp", ni, gi] | ["rename_node", ni, name] |
+#      ["rename_iface", [n,g,i], name] | ["set_site", ni, site] | ["peer", si, sj] | ["unpeer", si, sj] |
+#      ["disconnect_port", si, sj] | ["validate"]
+# Services start without interfaces; nodes have generic / NIC groups only. The last op is a validate.
+
+def hist_case(nodes, svcs, ops, naming="plain", exp=True):
+    for ni, n in enumerate(nodes):
+        for g in n["groups"]:
+            if g["via"] != "generic":
+                g["cname"] = "c%d" % ni       # distinct component (hence service) names whatever the node naming
+    return {"hist": True, "exp": exp, "ov": None, "naming": naming, "nodes": nodes,
+            "svcs": [{"ty": ty, "site": site, "props": sorted(props)} for ty, site, props in svcs], "ops": [list(o) for o in ops]}
+
+
+def _vm(site, kinds=("DedicatedPort", "DedicatedPort"), nic=None, **kw):
+    groups = [{"via": "generic", "sty": "OVS", "kinds": list(kinds)}]
+    if nic:
+        groups.append({"via": nic, "sty": "OVS", "kinds": ["SharedPort"] if nic == "nic_shared" else ["DedicatedPort"] * 2})
+    return mknode("VM", site, groups=groups, **kw)
+
+
+HIST_TYPES = ["L2Bridge", "L2STS", "L2PTP", "L2Path", "FABNetv4", "L3VPN", "PortMirror", "L2Multisite"]
+
+
+def grid_G2():
+    """always run: deterministic histories"""
+    V = ["validate"]
+    three = lambda: [_vm("RENC"), _vm("UKY"), _vm("RENC", nic="nic_smart")]
+    for ty in SVC_TYPES:
+        bp = baseline_props(ty)
+        # validate, move to another site / within the site, validate again
+        for target in ([1, 0, 0], [2, 0, 0]):
+            yield hist_case(three(), [(ty, None, bp)], [["connect", 0, [0, 0, 0]], V, ["disconnect", 0, [0, 0, 0]], ["connect", 0, target], V])
+        # grow after a validation: second interface in the same site / in another site
+        for target in ([2, 0, 0], [1, 0, 0]):
+            yield hist_case(three(), [(ty, None, bp)], [["connect", 0, [0, 0, 0]], V, ["connect", 0, target], V])
+        # a failed validation (another service spans too many sites) comes first, then that service is repaired and this one moved
+        yield hist_case(three(), [(ty, None, bp), ("L2Bridge", None, [])],
+                        [["connect", 0, [0, 0, 0]], ["connect", 1, [0, 0, 1]], ["connect", 1, [1, 0, 1]], V,
+                         ["disconnect", 1, [1, 0, 1]], ["disconnect", 0, [0, 0, 0]], ["connect", 0, [1, 0, 0]], V])
+        # the owner of an interface goes away between connect and validate: node, component
+        for gone in (["remove_node", 1], ["remove_node", 0]):
+            yield hist_case(three(), [(ty, None, bp)], [["connect", 0, [0, 0, 0]], ["connect", 0, [1, 0, 0]], ["connect", 0, [2, 0, 0]], gone, V])
+        yield hist_case(three(), [(ty, None, bp)], [["connect", 0, [0, 0, 0]], ["connect", 0, [2, 1, 0]], ["connect", 0, [2, 1, 1]], ["remove_comp", 2, 1], V])
+        yield hist_case(three(), [(ty, None, bp)], [["connect", 0, [2, 1, 0]], ["connect", 0, [1, 0, 0]], V, ["remove_comp", 2, 1], V])
+        # names are labels: renamed before the connect, after it, so that the derived names coincide
+        for ops in ([["rename_node", 0, "n1"], ["rename_node", 1, "n1-x"], ["rename_iface", [0, 0, 0], "x-p0"], ["rename_iface", [1, 0, 0], "p0"],
+                     ["connect", 0, [0, 0, 0]], ["connect", 0, [1, 0, 0]], V],
+                    [["connect", 0, [0, 0, 0]], ["connect", 0, [1, 0, 0]], ["rename_node", 0, "zz"], ["rename_iface", [1, 0, 0], "qq"], V],
+                    [["connect", 0, [0, 0, 0]], ["rename_node", 0, "n1"], ["rename_iface", [0, 0, 0], "p0"], ["connect", 0, [1, 0, 0]], V, ["rename_node", 1, "ww"], V]):
+            yield hist_case(three(), [(ty, None, bp)], ops)
+        # the node moves to another site: before the first validation, between two validations
+        yield hist_case(three(), [(ty, None, bp)], [["connect", 0, [0, 0, 0]], ["connect", 0, [2, 0, 0]], ["set_site", 2, "UKY"], V])
+        yield hist_case(three(), [(ty, None, bp)], [["connect", 0, [0, 0, 0]], ["connect", 0, [2, 0, 0]], V, ["set_site", 2, "UKY"], V])
+        # every order of the same three connections over two services
+        conns = [["connect", 0, [0, 0, 0]], ["connect", 0, [1, 0, 0]], ["connect", 1, [2, 0, 0]]]
+        for perm in itertools.permutations(conns):
+            yield hist_case(three(), [(ty, None, bp), (ty, None, bp)], list(perm) + [V])
+    for ty in HIST_TYPES:
+        bp = baseline_props(ty)
+        # peered services: peer, unpeer, disconnect called on the peering port, disconnect called on the wrong service
+        two = [(ty, None, bp), (ty, None, bp)]
+        wired = [["connect", 0, [0, 0, 0]], ["connect", 1, [1, 0, 0]]]
+        yield hist_case(three(), two, wired + [["peer", 0, 1], V])
+        yield hist_case(three(), two, wired + [["peer", 0, 1], ["unpeer", 0, 1], V])
+        yield hist_case(three(), two, wired + [["peer", 0, 1], V, ["unpeer", 1, 0], V])
+        yield hist_case(three(), two, wired + [["peer", 0, 1], ["disconnect_port", 0, 1], V])
+        yield hist_case(three(), two, wired + [["peer", 0, 1], ["peer", 0, 1], V])
+        yield hist_case(three(), two, wired + [["disconnect", 1, [0, 0, 0]], V])
+        yield hist_case(three(), two, wired + [["connect", 1, [0, 0, 0]], ["disconnect", 0, [1, 0, 0]], V, ["connect", 0, [1, 0, 0]], V])
+
+
+def random_histories(rng, n):
+    for _ in range(n):
+        nodes = [_vm(rng.choice(SITES[:2]), kinds=[rng.choice(["DedicatedPort", "SharedPort", "DedicatedPort"])] * 2,
+                     nic=rng.choice([None, None, "nic_smart", "nic_shared"])) for _ in range(rng.randrange(2, 5))]
+        tys = [rng.choice(SVC_TYPES) for _ in range(rng.randrange(1, 3))]
+        svcs = [(ty, rng.choice([None, None, None, "RENC"]), baseline_props(ty)) for ty in tys]
+        keys = [[ni, gi, ii] for ni, nd in enumerate(nodes) for gi, g in enumerate(nd["groups"]) for ii in range(len(g["kinds"]))]
+        ops, names = [], itertools.count()
+        for _ in range(rng.randrange(3, 11)):
+            r = rng.random()
+            if r < 0.42:
+                ops.append(["connect", rng.randrange(len(svcs)), rng.choice(keys)])
+            elif r < 0.56:
+                ops.append(["disconnect", rng.randrange(len(svcs)), rng.choice(keys)])
+            elif r < 0.68:
+                ops.append(["validate"])
+            elif r < 0.74:
+                ops.append(["remove_node", rng.randrange(len(nodes))])
+            elif r < 0.80:
+                nics = [(ni, gi) for ni, nd in enumerate(nodes) for gi, g in enumerate(nd["groups"]) if g["via"] != "generic"]
+                if nics:
+                    ops.append(["remove_comp"] + list(rng.choice(nics)))
+            elif r < 0.86:
+                ops.append(["set_site", rng.randrange(len(nodes)), rng.choice(SITES)])
+            elif r < 0.92:
+                ops.append(["rename_node", rng.randrange(len(nodes)), "rn%d" % next(names)])
+            elif r < 0.96:
+                ops.append(["rename_iface", rng.choice(keys), "ri%d" % next(names)])
+            elif len(svcs) > 1:
+                ops.append([rng.choice(["peer", "unpeer", "peer"]), 0, 1])
+        yield hist_case(nodes, svcs, ops + [["validate"]], naming=rng.choice(["plain", "collide"]))
+
+
+def hist_ids(case):
+    """stable numbers for the model: interface ids (a SubInterface also has a parent port), component ids"""
+    ids, parents, k = {}, {}, 0
+    for ni, n in enumerate(case["nodes"]):
+        for gi, g in enumerate(n["groups"]):
+            for ii, kind in enumerate(g["kinds"]):
+                if kind == "SubInterface" and g["via"] == "generic":
+                    parents[(ni, gi, ii)] = k
+                    k += 1
+                ids[(ni, gi, ii)] = k
+                k += 1
+    return ids, parents
+
+
+def hist_request(case, b):
+    ids, parents = hist_ids(case)
+    nodes, ifaces, owned = [], [], []
+    for ni, n in enumerate(case["nodes"]):
+        comps = [100 * ni + gi for gi, g in enumerate(n["groups"]) if g["via"] != "generic"] + ([100 * ni + 99] if n["gpu"] else [])
+        props = (["image_ref", "image_type"] if n["image"] is True else []) + (["management_ip"] if n["mgmt"] else [])
+        nodes.append([ni, node_name(case, ni), n["ty"], n["site"], props, ["management_ip"] if n["mgmt"] == "zero" else [],
+                      ["image_ref", "image_type"] if n["image"] == "blank" else [], comps])
+        for gi, g in enumerate(n["groups"]):
+            comp = None if g["via"] == "generic" else 100 * ni + gi
+            direct = []
+            for ii, kind in enumerate(g["kinds"]):
+                x = b.iface[(ni, gi, ii)]
+                if (ni, gi, ii) in parents:
+                    ifaces.append([parents[(ni, gi, ii)], b.parent_iface[(ni, gi, ii)].name, "DedicatedPort", ni, comp])
+                    direct.append(parents[(ni, gi, ii)])
+                else:
+                    direct.append(ids[(ni, gi, ii)])
+                ifaces.append([ids[(ni, gi, ii)], x.name, kind, ni, comp])
+            owned.append([b.owned_name[(ni, gi)], g["sty"], ni, comp, direct])
+    svcs = [["svc%d" % si, x["ty"], x["site"]] + list(abs_props(x["props"])) for si, x in enumerate(case["svcs"])]
+    ops = []
+    for o in case["ops"]:
+        k = o[0]
+        if k == "connect":
+            ops.append(["connect", "svc%d" % o[1], ids[tuple(o[2])]])
+        elif k == "disconnect":
+            ops.append(["disconnect", ids[tuple(o[2])]])
+        elif k == "remove_node":
+            ops.append(["removeNode", o[1]])
+        elif k == "remove_comp":
+            ops.append(["removeComp", o[1], 100 * o[1] + o[2]])
+        elif k == "rename_node":
+            ops.append(["renameNode", o[1], o[2]])
+        elif k == "rename_iface":
+            ops.append(["renameIface", ids[tuple(o[1])], o[2]])
+        elif k == "set_site":
+            ops.append(["setSite", o[1], o[2]])
+        elif k in ("peer", "unpeer"):
+            ops.append([k, "svc%d" % o[1], "svc%d" % o[2]])
+        elif k == "disconnect_port":
+            ops.append(["disconnectPort", "svc%d" % o[1], "svc%d" % o[2]])
+        else:
+            ops.append(["validate"])
+    return ["history", None, bool(case["exp"]), nodes, ifaces, owned, svcs, ops]
+
+
+def extract_nodes(t):
+    """the nodes of the slice as it is: [type, [set properties], [hollow], [blank]]"""
+    out = []
+    for n in list(t.nodes.values()) + list((t.facilities or {}).values()):
+        props, hollow, blank = [], [], []
+        for p in ("site", "image_ref", "image_type", "management_ip"):
+            v = n.get_property(p)
+            if v is None:
+                continue
+            if isinstance(v, str) and v == "":
+                blank.append(p)
+                continue
+            props.append(p)
+            if p == "management_ip" and int(v) == 0:
+                hollow.append(p)
+        if len(n.components) > 0:
+            props.append("attached_components_info")
+        out.append([str(n.type), props, hollow, blank])
+    return out
+
+
+def run_history(case, F):
+    base = {"exp": case["exp"], "ov": None, "naming": case.get("naming", "plain"), "nodes": case["nodes"],
+            "svcs": [mksvc(x["ty"], [], site=x["site"], props=x["props"], how="connect") for x in case["svcs"]]}
+    b = None
+    sink = io.StringIO()
+    try:
+        with contextlib.redirect_stdout(sink):
+            try:
+                b = build(base, F)
+            except Infra:
+                raise
+            except Exception as e:
+                return {"build_err": "%s: %s" % (type(e).__name__, str(e)[:200])}
+            return _run_history(case, F, b)
+    finally:
+        if b is not None:
+            try:
+                b.topo.graph_model.delete_graph()
+            except Exception:
+                pass
+
+
+def _run_history(case, F, b):
+    t = b.topo
+    request = hist_request(case, b)        # before the calls: a rename changes the names the handles carry
+    TE = F["TopologyException"]
+    name_of = {ni: node_name(case, ni) for ni in range(len(case["nodes"]))}
+    svc = lambda si: t.network_services["svc%d" % si]
+
+    def facing_port(si, sj):
+        theirs = {x.node_id for x in svc(sj).interface_list}
+        for own in svc(si).interface_list:
+            if str(own.type) == "ServicePort":
+                for p in own.get_peers(itype=F["InterfaceType"].ServicePort) or []:
+                    if p.node_id in theirs:
+                        return own
+        return None
+    statuses, snaps = [], []
+    for o in case["ops"]:
+        k = o[0]
+        try:
+            if k == "validate":
+                listed = t.network_services
+                order = list(listed.keys())
+                before = {"nodes": extract_nodes(t), "svcs": dict(zip(order, extract(t, order, F, listed)))}
+                try:
+                    t.validate()
+                    st = "ok"
+                except Exception as e:
+                    st = err_kind(e)
+                after = t.network_services
+                snaps.append({"before": before, "status": st, "sites": {n: after[n].site for n in after.keys()}})
+                statuses.append(st)
+                continue
+            if k == "connect":
+                svc(o[1]).connect_interface(interface=b.iface[tuple(o[2])])
+            elif k == "disconnect":
+                svc(o[1]).disconnect_interface(interface=b.iface[tuple(o[2])])
+            elif k == "remove_node":
+                t.remove_node(name=name_of[o[1]])
+            elif k == "remove_comp":
+                t.nodes[name_of[o[1]]].remove_component(name=b.comp_name[(o[1], o[2])])
+            elif k == "rename_node":
+                t.nodes[name_of[o[1]]].rename(o[2])
+                name_of[o[1]] = o[2]
+            elif k == "rename_iface":
+                b.iface[tuple(o[1])].rename(o[2])
+            elif k == "set_site":
+                t.nodes[name_of[o[1]]].site = o[2]
+            elif k == "peer":
+                svc(o[1]).peer(svc(o[2]))
+            elif k == "unpeer":
+                svc(o[1]).unpeer(svc(o[2]))
+            elif k == "disconnect_port":
+                sp = facing_port(o[1], o[2])
+                if sp is None:
+                    raise KeyError("no facing port")
+                svc(o[1]).disconnect_interface(interface=sp)
+            statuses.append("ok")
+        except Exception as e:
+            statuses.append(err_kind(e))
+    listed = t.network_services
+    order = list(listed.keys())
+    final = {"nodes": extract_nodes(t), "svcs": dict(zip(order, extract(t, order, F, listed)))}
+    return {"hist": True, "statuses": statuses, "snaps": snaps, "final": final, "request": request,
+            "owned": {"n%d.g%d" % k: v for k, v in b.owned_name.items()}}
+
+
+def hist_describe(case):
+    """The description-level book-keeping of a history: what each call means for the slice (independent of the model).
+    Yields, for every validate, the description at that moment; the caller records the verdict and the sites."""
+    st = {"exp": case["exp"], "nodes": json.loads(json.dumps(case["nodes"])),
+          "svcs": [mksvc(x["ty"], [], site=x["site"], props=x["props"], how="connect") for x in case["svcs"]], "opaque": None}
+    return st
+
+
+def hist_apply(st, o, refused):
+    """apply one non-validate call to the description; `refused`: the implementation raised"""
+    k = o[0]
+    if refused:
+        return
+    alive = lambda key: not st["nodes"][key[0]].get("removed") and not st["nodes"][key[0]]["groups"][key[1]].get("removed")
+    if k == "connect":
+        st["svcs"][o[1]]["ifs"].append(list(o[2]))
+    elif k == "disconnect":
+        for si, x in enumerate(st["svcs"]):
+            if list(o[2]) in x["ifs"]:
+                x["ifs"].remove(list(o[2]))
+                if si != o[1]:
+                    st["opaque"] = st["opaque"] or "disconnect called on a service the interface is not connected to"
+    elif k == "remove_node":
+        st["nodes"][o[1]]["removed"] = True
+        for x in st["svcs"]:
+            x["ifs"] = [i for i in x["ifs"] if i[0] != o[1]]
+    elif k == "remove_comp":
+        st["nodes"][o[1]]["groups"][o[2]]["removed"] = True
+        for x in st["svcs"]:
+            x["ifs"] = [i for i in x["ifs"] if not (i[0] == o[1] and i[1] == o[2])]
+    elif k == "set_site":
+        st["nodes"][o[1]]["site"] = o[2]
+    elif k == "peer":
+        st["svcs"][o[1]]["extra"].append(["peer", o[2]])
+    elif k == "unpeer":
+        for a, bb in ((o[1], o[2]), (o[2], o[1])):
+            if ["peer", bb] in st["svcs"][a]["extra"]:
+                st["svcs"][a]["extra"].remove(["peer", bb])
+                break
+    elif k == "disconnect_port":
+        st["opaque"] = st["opaque"] or "disconnect called on a peering service port"
+
+
+def hist_must_refuse(st, o):
+    """must the call be refused at once? (None: the description does not say)"""
+    k = o[0]
+    gone = lambda ni: st["nodes"][ni].get("removed")
+    if k == "connect":
+        key = list(o[2])
+        n = st["nodes"][key[0]]
+        if gone(key[0]) or n["groups"][key[1]].get("removed"):
+            return None
+        kind = n["groups"][key[1]]["kinds"][key[2]]
+        return (st["svcs"][o[1]]["ty"], kind) in PINNED_GUARD or any(key in x["ifs"] for x in st["svcs"])
+    if k == "remove_node":
+        return bool(gone(o[1]))
+    return None
+
+
+def judge_history(case, out, res):
+    """(1) as it is: every validate's verdict is the oracle's verdict on the slice read back through the API just before it;
+    (2) as described: ... and on the slice the calls describe; (3) what a validation leaves behind is only what the property
+    says it records."""
+    st = hist_describe(case)
+    vi = 0
+    for o, status in zip(case["ops"], out["statuses"]):
+        if o[0] != "validate":
+            must = hist_must_refuse(st, o) if not st["opaque"] else None
+            if o[0] == "connect" and must is not None:
+                if must and status == "ok":
+                    res.violation("C10:history:connect:accepts-unsupported", "a connect that must be refused at once succeeds", case,
+                                  expected={"call": o, "verdict": "refuse"}, observed={"verdict": "connected"})
+                elif not must and status != "ok":
+                    res.violation("C10:history:connect:refuses-supported:" + status, "a supported connect is refused", case,
+                                  expected={"call": o, "verdict": "connect"}, observed={"verdict": status})
+            hist_apply(st, o, status != "ok")
+            continue
+        snap = out["snaps"][vi]
+        vi += 1
+        status = snap["status"]
+        # (1) the slice as it is
+        order = list(snap["before"]["svcs"].keys())
+        r_asis = expected_abstract(case["exp"], snap["before"]["nodes"], [snap["before"]["svcs"][n] for n in order])
+        cls = sorted({r[0] for r in r_asis})
+        if status == "ok" and r_asis:
+            for c in cls:
+                res.violation("C10:history:accepts-invalid:" + c, "validate() accepts a slice that, as it is, violates the constraint table (%s)" % c,
+                              case, expected={"verdict": "reject", "reasons": r_asis, "validate#": vi}, observed={"verdict": "accept"})
+        elif status != "ok" and not r_asis:
+            res.violation("C10:history:rejects-valid:" + status, "validate() rejects a slice that, as it is, the constraint table allows",
+                          case, expected={"verdict": "accept", "validate#": vi}, observed={"verdict": status})
+        elif status not in ("ok", "topology"):
+            res.violation("C10:history:crash:%s" % status, "validate() fails with %s instead of rejecting with TopologyException" % status, case)
+        res.count("history:as-is:" + ("valid" if not r_asis else "invalid"))
+        # (2) the slice as described by the calls
+        if not st["opaque"]:
+            inferred = {}
+            r_state, must_site = expected(st, "state", inferred)
+            r_prop, _ = expected(st, "property")
+            if bool(r_state) != bool(r_asis):
+                res.violation("C10:history:slice-differs:" + "+".join(sorted({r[0] for r in (r_state or r_asis)})),
+                              "the slice the API reports is not the slice the calls describe", case,
+                              expected={"described": r_state or "valid", "validate#": vi}, observed={"as it is": r_asis or "valid"})
+            elif status != "ok" and r_state and not r_prop:
+                # rejected only because of a site an earlier validation left behind although the property does not say it records it
+                why = set()
+                for x in list(st["svcs"]) + [g for n in st["nodes"] for g in n["groups"]]:
+                    pin = x.get("pinned")
+                    ty = x.get("ty") or x.get("sty")
+                    if pin and not x.get("site") and not (pin["ok"] and PINNED_SVC[ty]["num_sites"] == 1):
+                        why.add("failed-validate" if not pin["ok"] else "multi-site-type")
+                for w in sorted(why):
+                    res.violation("C10:history:site-pinned:" + w, "validate() rejects a slice only because of a site an earlier validate() wrote on a "
+                                  "service although the property does not say it records one there", case,
+                                  expected={"verdict": "accept", "validate#": vi}, observed={"verdict": status, "reasons": r_state})
+            res.count("history:described:" + ("valid" if not r_state else "invalid"))
+            # what the validation wrote down
+            names = {"svc%d" % si: x for si, x in enumerate(st["svcs"])}
+            for ni, n in enumerate(st["nodes"]):
+                for gi, g in enumerate(n["groups"]):
+                    names["n%d.g%d" % (ni, gi)] = g
+            if status == "ok":
+                for name, site in must_site.items():
+                    if snap["sites"].get(name) != site:
+                        res.violation("C10:site-recorded:missing", "successful validation did not record the inferred site on a single-site service",
+                                      case, expected={name: site}, observed={name: snap["sites"].get(name)})
+            for si, x in enumerate(st["svcs"]):
+                got = snap["sites"].get("svc%d" % si)
+                was = x["site"] or (x.get("pinned") or {}).get("site")
+                if got != was:
+                    if was or got != inferred.get("svc%d" % si):
+                        res.violation("C10:history:site-changed", "validate() changed the site of a service to something other than the inferred site",
+                                      case, expected={"svc%d" % si: [was, inferred.get("svc%d" % si)]}, observed={"svc%d" % si: got})
+                    else:
+                        x["pinned"] = {"site": got, "ok": status == "ok"}
+            # services of nodes and components: the code writes the inferred site there as well
+            for name, x in names.items():
+                api = out["owned"].get(name)
+                if name.startswith("n") and api in snap["sites"]:
+                    got, was = snap["sites"][api], (x.get("pinned") or {}).get("site")
+                    if got != was:
+                        if was or got != inferred.get(name):
+                            res.violation("C10:history:site-changed", "validate() changed the site of a service to something other than the inferred site",
+                                          case, expected={api: [was, inferred.get(name)]}, observed={api: got})
+                        else:
+                            x["pinned"] = {"site": got, "ok": status == "ok"}
+    res.count("history:ops:%d" % min(len(case["ops"]), 12))
+
+
+# --------------------------------------------------------------------------
 # pipeline entry points
 
 _CACHE = {}
@@ -953,14 +1452,15 @@ def case_list(ctx, tag):
     EXHAUSTIVE = bool(ctx.thorough)      # the grids are enumerated completely only in the thorough tier
     """corner cases first (C, D, F), then the A/B grids (all in thorough, a seeded sample in quick), then edited tables"""
     rng = ctx.sub_rng("cases")
-    fixed = corpus_cases() + list(grid_C()) + list(grid_D()) + list(grid_F()) + list(grid_H()) + list(grid_G())
+    fixed = corpus_cases() + list(grid_C()) + list(grid_D()) + list(grid_F()) + list(grid_H()) + list(grid_G()) + list(grid_G2()) + \
+        list(random_histories(ctx.sub_rng("histories"), ctx.scale(250, 4000)))
     ab = list(grid_A()) + list(grid_B())
     if not ctx.thorough:
         ab = rng.sample(ab, 1100)
     e = list(grid_E(ctx.sub_rng("tables"), ctx.scale(250, 3000)))
     allc = fixed + ab + e
     for i, c in enumerate(allc):
-        if i % 5 == 0 and not c.get("connect"):
+        if i % 5 == 0 and not c.get("connect") and not c.get("hist"):
             c["xcheck"] = True
     return allc
 
@@ -978,11 +1478,41 @@ def corpus_cases():
 
 def evaluated(ctx):
     key = (ctx.seed, ctx.tier)
+    if key not in _CACHE and key in _ASYNC:
+        cases, pool, job = _ASYNC.pop(key)
+        try:
+            _CACHE[key] = (cases, job.get())
+        finally:
+            pool.terminate()
     if key not in _CACHE:
         cases = case_list(ctx, "main")
         outs = run_cases(cases, ctx.scale(6, 8))
         _CACHE[key] = (cases, outs)
     return _CACHE[key]
+
+
+_ASYNC = {}
+
+
+def _prefetch():
+    """Building and validating the slices through the real API touches neither lean/.lake nor Generated/: start it when the
+    pipeline imports this module, so that it runs while the pipeline waits for the Lean lock, builds and audits. The tier and
+    the seed are read from the frame of core.run_property (nothing is started for a replay or outside the pipeline)."""
+    import sys
+    f = sys._getframe()
+    while f is not None and f.f_code.co_name != "run_property":
+        f = f.f_back
+    if f is None or f.f_locals.get("replay") or f.f_locals.get("prop") != ID:
+        return
+    try:
+        import core
+        ctx = core.Ctx(ID, f.f_locals["tier"], f.f_locals["seed"])
+        cases = case_list(ctx, "main")
+        pool = multiprocessing.get_context("fork").Pool(ctx.scale(6, 8))
+        job = pool.map_async(run_case, cases, chunksize=max(1, min(50, len(cases) // (ctx.scale(6, 8) * 4))))
+        _ASYNC[(ctx.seed, ctx.tier)] = (cases, pool, job)
+    except Exception:
+        _ASYNC.clear()
 
 
 def correspondence(ctx, res):
@@ -1005,6 +1535,9 @@ def correspondence(ctx, res):
     for r, i, m in zip(reqs, idx, model):
         o = outs[i]
         res.evaluations += 1
+        if r[0] == "history":
+            corr_history(cases[i], r, o, json.loads(m), res)
+            continue
         impl = [o["status"]] if r[0] == "connect" else [o["status"], o["sites"]]
         res.count("op:" + r[0])
         res.count("verdict:" + o["status"])
@@ -1028,7 +1561,40 @@ def correspondence(ctx, res):
             res.sample({"request": r, "impl": impl, "model": json.loads(m)}) if (len(r[4]) and res.evaluations % 997 == 0) else None
             res.count("spec-vs-oracle-agree") if not cases[i].get("ov") else None
     if reqs:
-        res.sample({"request": reqs[-1], "impl": outs[idx[-1]]["status"], "model": json.loads(model[-1])})
+        res.sample({"request": reqs[-1], "impl": outs[idx[-1]].get("status", outs[idx[-1]].get("statuses")), "model": json.loads(model[-1])})
+
+
+def canon_state(nodes, svcs):
+    """the slice as it is, order-free: nodes as a sorted list, the interfaces of every service sorted"""
+    return json.loads(canon({"nodes": sorted(nodes, key=canon),
+                             "svcs": {k: list(v[:4]) + [sorted(v[4], key=canon)] + [sorted(v[5]), sorted(v[6])] for k, v in svcs.items()}}))
+
+
+def corr_history(case, r, o, mj, res):
+    """model of the calls (Model/ValidateHist.lean) against the implementation: the outcome of every call, the slice as it is
+    after the history (read back through the API), and Lean's SpecFull on it against the Python oracle"""
+    st = lambda x: x if x in ("ok", "topology") else "error"
+    res.count("op:history")
+    for op in case["ops"]:
+        res.count("call:" + op[0])
+    if not isinstance(mj, list) or len(mj) != 4 or mj[0] == "err":
+        res.disagreements.append({"case": case, "request": r, "impl": o["statuses"], "model": mj})
+        return
+    impl = {"statuses": [st(x) for x in o["statuses"]], "slice": canon_state(o["final"]["nodes"], o["final"]["svcs"])}
+    model = {"statuses": [st(x) for x in mj[0]], "slice": canon_state(mj[1], {k: v for k, v in mj[2]})}
+    if impl != model:
+        res.disagreements.append({"case": case, "request": r, "impl": impl, "model": model})
+        return
+    order = list(o["final"]["svcs"].keys())
+    want = not expected_abstract(case["exp"], o["final"]["nodes"], [o["final"]["svcs"][n] for n in order])
+    if mj[3] != want:
+        res.disagreements.append({"case": case, "request": r, "impl": "python oracle on the final slice: %s" % ("valid" if want else "invalid"),
+                                  "model": "decide SpecFull = %s" % mj[3]})
+        res.count("spec-vs-oracle-differs")
+    else:
+        res.count("spec-vs-oracle-agree")
+    for x in o["statuses"]:
+        res.count("call-outcome:" + st(x))
 
 
 def oracle(ctx, res, pairs=None):
@@ -1047,12 +1613,18 @@ def oracle(ctx, res, pairs=None):
 
 def _oracle(ctx, res, cases, outs):
     for c, o in zip(cases, outs):
-        if "status" not in o:
+        if "status" not in o and "statuses" not in o:
             continue
         if c.get("connect"):
             res.evaluations += 1
             res.nontrivial.add(canon(c))
             judge_connect(c, o, res)
+            continue
+        if c.get("hist"):
+            if "statuses" in o:
+                res.evaluations += 1
+                res.nontrivial.add(canon(c))
+                judge_history(c, o, res)
             continue
         if c.get("ov"):
             continue           # edited tables: correspondence only (the oracle speaks about the pinned table)
@@ -1101,12 +1673,18 @@ def replay(ctx, payload):
     r = Result()
     if c.get("connect"):
         judge_connect(c, o, r)
+    elif c.get("hist"):
+        if "statuses" in o:
+            judge_history(c, o, r)
     else:
         judge(c, o, r)
-    print("   implementation:", {k: o.get(k) for k in ("status", "sites", "msg", "build_err")})
+    print("   implementation:", {k: o.get(k) for k in ("status", "statuses", "sites", "msg", "build_err")})
     if (payload.get("expected") or {}).get("differing_rows"):
         print("   differing rows (pinned vs live at the time):", json.dumps(payload["expected"]["differing_rows"]))
         print("   differing rows now:", json.dumps(table_diff()))
     for v in r.violations:
         print("  ", v["signature"], v["what"])
     return any(v["signature"] == payload.get("signature") for v in r.violations) or (bool(r.violations) and not payload.get("signature"))
+
+
+_prefetch()
